@@ -436,7 +436,11 @@ class NearestNeighborModel(Model):
 
         """
         if self.lat.bc_MPS == 'infinite':
-            return psi.expectation_value(self.H_bond, axes=(['p0', 'p1'], ['p0*', 'p1*']))
+            # `H_bond[i]` acts on sites ``(i-1, i)``, but `expectation_value` applies the i-th
+            # operator on sites ``(i, i+1)``: shift the list and the result accordingly
+            H_bond = self.H_bond[1:] + self.H_bond[:1]
+            E_bond = psi.expectation_value(H_bond, axes=(['p0', 'p1'], ['p0*', 'p1*']))
+            return np.roll(E_bond, 1)
         # else
         return psi.expectation_value(self.H_bond[1:], axes=(['p0', 'p1'], ['p0*', 'p1*']))
 
